@@ -267,6 +267,9 @@ func run(rc *kernel.RunCtx, k *kernel.Kernel) map[string]any {
 	}
 	doOpen := func() {
 		ref = genDoc(t)
+		if t.Bool("versions-restart-on-open") {
+			version = 0 // editors number the versions of a (re)opened document from 1 again
+		}
 		version++
 		open = true
 		haveGood = false
